@@ -95,3 +95,16 @@ func init() {
 		Runs: []Run{{Pkg: hp + "c03", Variant: "real"}},
 	}
 }
+
+func init() {
+	specs["C04"] = &Spec{
+		Title: "Identities that match no recipient never obtain plaintext",
+		Level: "exploration",
+		LevelText: "Every recipient list of the family x armor is decrypted with every list of 1..3 non-matching identities over six identities of all types; every one-bit public-key near-miss of two X25519 keys; a passphrase near-miss family (every substitution/deletion, case, whitespace and line-end padding on either side, Unicode forms); every type-mismatch pair. Oracle: nil reader + error; for native/passphrase identities *NoIdentityMatchError with exactly one ErrIncorrectIdentity cause per identity, each consulted once in order. Exploration over inputs and configurations.",
+		LevelNote: "cryptographic indistinguishability is out of scope: the check establishes that no structural shortcut (normalisation, prefix comparison, early return) lets a non-matching identity through",
+		Technique: "bounded-exhaustive configuration/input enumeration on the implementation with an invariant oracle",
+		Rule: "enumerate (file, identity list) pairs with disjoint keys in the stated families; invariant oracle on age.Decrypt's return values and on the spy log of Unwrap calls. distinct_nontrivial counts distinct (file, identity list) pairs.",
+		Assumptions: commonAssume,
+		Runs: []Run{{Pkg: hp + "c04", Variant: "real"}},
+	}
+}
